@@ -11,41 +11,32 @@
    specified -> nondeterministic); GetDense (optionally an explicit channel list); GetSparse -
    drop signal-free and -1 columns, unwhiten on the sub-matrix wmi[ch, ch], reorder.
    P-layer: ValidDense / ValidExplicit / ValidSparse - the statement, relational on ties.       *)
-EXTENDS VIO, FiniteSets
+EXTENDS Mat
 CONSTANTS NS, NCH, Vals, Wmis, PosSets, ShankSets, Thrs, NClosests
-
-MatMul(A, B) == [r \in 1..Len(A) |-> [c \in 1..Len(B[1]) |-> SumSeq([k \in 1..Len(B) |-> A[r][k] * B[k][c]])]]
-SeqMax(s) == CHOOSE x \in SeqSet(s) : \A y \in SeqSet(s) : y <= x
-SeqMin(s) == CHOOSE x \in SeqSet(s) : \A y \in SeqSet(s) : y >= x
-Col(M, c) == [r \in 1..Len(M) |-> M[r][c]]
-Amp(U) == [c \in 1..Len(U[1]) |-> SeqMax(Col(U, c)) - SeqMin(Col(U, c))]
-Dist2(pos, a, b) == (pos[a][1] - pos[b][1]) * (pos[a][1] - pos[b][1]) + (pos[a][2] - pos[b][2]) * (pos[a][2] - pos[b][2])
-\* N is a valid set of the n nearest channels of p
-ValidNearest(N, pos, p, n) == LET nc == Len(pos) IN
-   /\ N \subseteq 1..nc /\ Cardinality(N) = Min2(n, nc)
-   /\ \A a \in N, b \in (1..nc) \ N : Dist2(pos, a, p) <= Dist2(pos, b, p)
-Cols(M, ch) == [r \in 1..Len(M) |-> [k \in 1..Len(ch) |-> M[r][ch[k]]]]
-Distinct(s) == Cardinality(SeqSet(s)) = Len(s)
-NonIncreasingAlong(amp, ch) == \A k \in 1..(Len(ch) - 1) : amp[ch[k]] >= amp[ch[k + 1]]
-Perms(S) == {s \in [1..Cardinality(S) -> S] : Cardinality({s[k] : k \in 1..Cardinality(S)}) = Cardinality(S)}
 
 \* ---------------------------------------------------------------------------- P-layer
 \* rec = [ch (1-based here), tmpl, amp, best]; U = the (un)whitened template; thr = <<num, den>>
+\* (TLC re-evaluates a LET definition at every use - costly inside the SUBSET quantifier; quantifying
+\* over a singleton set binds the computed VALUE once)
 ValidDense(rec, U, pos, shank, nclosest, thr) ==
-  LET amp == Amp(U)
-      mx == SeqMax(amp)
-      ch == rec.ch
+  \A amp \in {Amp(U)} : \A mx \in {SeqMax(amp)} :
+  LET ch == rec.ch
   IN /\ Distinct(ch) /\ Len(ch) >= 1
+     /\ SeqSet(ch) \subseteq 1..Len(amp) /\ rec.best \in 1..Len(amp)       \* (keeps the predicate total)
+     /\ Len(rec.tmpl) = Len(U) /\ \A q \in 1..Len(rec.tmpl) : Len(rec.tmpl[q]) = Len(ch)
      /\ NonIncreasingAlong(amp, ch) /\ amp[ch[1]] = mx                       \* peak channel first
      /\ rec.tmpl = Cols(U, ch)                                               \* column j = template on channel j
      /\ rec.amp = [k \in 1..Len(ch) |-> amp[ch[k]]]                          \* entry j = that column's amplitude
      /\ amp[rec.best] = mx
      /\ \E p \in {c \in 1..Len(amp) : amp[c] = mx} :
+          \A dist \in {[c \in 1..Len(amp) |-> Dist2(pos, c, p)]} :
+          \A keep \in {{c \in 1..Len(amp) : shank[c] = shank[p] /\ amp[c] * thr[2] >= thr[1] * mx}} :
           \E N \in SUBSET (1..Len(amp)) :
-             /\ ValidNearest(N, pos, p, nclosest)
-             /\ SeqSet(ch) = {c \in N : shank[c] = shank[p] /\ amp[c] * thr[2] >= thr[1] * mx}
+             /\ Cardinality(N) = Min2(nclosest, Len(amp))
+             /\ \A a \in N, b \in (1..Len(amp)) \ N : dist[a] <= dist[b]      \* a valid nearest set of p
+             /\ SeqSet(ch) = N \cap keep
 \* explicit channel list: the list is returned as given and the columns are aligned with it
-ValidExplicit(rec, U, explicit) == rec.ch = explicit /\ rec.tmpl = Cols(U, explicit)
+ValidExplicit(rec, U, explicit) == rec.ch = explicit /\ SeqSet(explicit) \subseteq 1..Len(U[1]) /\ rec.tmpl = Cols(U, explicit)
 \* sparse storage: Ts = stored columns, cols = stored channel ids (1-based, 0 = unused), wmi4 full
 ValidSparse(rec, Ts, cols, wmi4, unw) ==
   LET tmax == [k \in 1..Len(cols) |-> SeqMax([r \in 1..Len(Ts) |-> IF Ts[r][k] < 0 THEN -Ts[r][k] ELSE Ts[r][k]])]
@@ -57,6 +48,7 @@ ValidSparse(rec, Ts, cols, wmi4, unw) ==
       U == IF unw THEN MatMul(Tk, sub) ELSE [r \in 1..Len(Tk) |-> [k \in 1..Len(chs) |-> 4 * Tk[r][k]]]
       amp == Amp(U)                                                          \* indexed by position in chs
   IN /\ SeqSet(rec.ch) = SeqSet(chs) /\ Distinct(rec.ch) /\ Len(rec.ch) = Len(chs)
+     /\ Len(rec.amp) = Len(rec.ch) /\ Len(rec.tmpl) = Len(Ts) /\ \A q \in 1..Len(rec.tmpl) : Len(rec.tmpl[q]) = Len(rec.ch)
      /\ \A j \in 1..Len(rec.ch) :
            LET k == CHOOSE q \in 1..Len(chs) : chs[q] = rec.ch[j] IN
            /\ Col(rec.tmpl, j) = Col(U, k)
@@ -77,10 +69,8 @@ Pick2 == /\ pc = "pick2" /\ wmi' \in Wmis /\ pos' \in PosSets /\ shank' \in Shan
          /\ pc' = "ready" /\ UNCHANGED <<T, rec>>
 FindBest ==
   /\ pc = "ready"
-  /\ LET U == MatMul(T, wmi)
-         amp == Amp(U)
-         mx == SeqMax(amp)
-         best == CHOOSE c \in 1..NCH : amp[c] = mx /\ \A d \in 1..NCH : amp[d] = mx => c <= d   \* np.argmax: first
+  /\ \E U \in {MatMul(T, wmi)} : \E amp \in {Amp(U)} : \E mx \in {SeqMax(amp)} :
+     LET best == CHOOSE c \in 1..NCH : amp[c] = mx /\ \A d \in 1..NCH : amp[d] = mx => c <= d   \* np.argmax: first
          peak == {c \in 1..NCH : amp[c] * thr[2] >= thr[1] * mx}
      IN \E N \in SUBSET (1..NCH) :                                        \* argsort(d)[:n]: ties unspecified
           /\ ValidNearest(N, pos, best, nclosest)
